@@ -39,6 +39,9 @@ func (st *State) execBlock(stmts []ast.Stmt) []Outcome {
 				next = append(next, o)
 				continue
 			}
+			if o.st.fc.inlineDepth == 0 {
+				o.st.fc.topCall = topCall(s)
+			}
 			outs := o.st.exec(s)
 			if o.st.fc.inlineDepth == 0 && o.st.fc.curContract != nil && len(o.st.fc.curContract.Anchors) > 0 {
 				if call := topCall(s); call != nil {
